@@ -113,6 +113,16 @@ CLAIMS = {
                 "and norm-preservation of rotate follow from the verified transformation law for orthogonal R (theorem, not re-checked).",
         "technique": "algebraic abstract interpretation of the AST + normal-form identity checking",
     },
+    "C12": {
+        "level": "other",
+        "text": "elasticity_components interpreted on a generic symmetric matrix with the data-dependent eigenvector pairing havoc'ed into an "
+                "arbitrary frame: K and G as linear forms, isotropic vector fixed by all projectors, percent anisotropy formula, and — for every "
+                "frame — the nested selection over the three cyclic column permutations (rotation by the transposed candidate, telescoping class "
+                "vectors of the rotated vector, strictly-decreasing-distance selection, axis = last column of the selected frame). "
+                "Frame-independence of the percentages and co-rotation of the axis depend on eigenvector pairing numerics and are NOT decided.",
+        "note": "Trusted: C11 for the reused components (rotate, Voigt maps, projectors); havoc of the SCCS block is a sound over-approximation.",
+        "technique": "algebraic abstract interpretation with havoc of data-dependent numerics + select-join normal forms",
+    },
     "C13": {
         "level": "other",
         "text": "Identities with the eigen-solver as an uninterpreted atom whose argument is the triangle it reads: the solver is applied to "
